@@ -6,7 +6,7 @@ from sa.shapes import consumption, has_unknown, flat, Shaper
 from sa.cfg import cfg_of
 from sa.callgraph import bind_args
 from sa.spec import avro_wire as spec
-from .common import analysis, tokens
+from .common import ifexp_alternatives, analysis, tokens
 
 PROP = "C05"
 TECHNIQUE = "constant folding of the header constants; wire-shape extraction of dump / write_block / block codecs / block generators against the spec's container grammar; CFG ordering of offset/size bookkeeping"
@@ -81,47 +81,6 @@ def raw_var_sources(f, var):
                         x.id = roles[x.id]
                 out.append(norm(alt))
     return out
-
-
-def ifexp_alternatives(e):
-    """the expression with every conditional expression resolved either way (tests dropped)"""
-    import copy
-
-    for n in ast.walk(e):
-        if isinstance(n, ast.IfExp):
-            res = []
-            for pick in (n.body, n.orelse):
-                class R(ast.NodeTransformer):
-                    def visit_IfExp(self, node):
-                        return copy.deepcopy(pick) if node is n else self.generic_visit(node)
-
-                res += ifexp_alternatives(R().visit(copy.deepcopy(e)) if False else _replace_node(e, n, pick))
-            return res
-    return [e]
-
-
-def _replace_node(root, old, new):
-    import copy
-
-    class R(ast.NodeTransformer):
-        def visit(self, node):
-            if node is old:
-                return copy.deepcopy(new)
-            return super().visit(node)
-
-    # work on a copy that preserves identity mapping: copy first, locate by position in walk order
-    order = list(ast.walk(root))
-    idx = next(i for i, x in enumerate(order) if x is old)
-    dup = copy.deepcopy(root)
-    target = list(ast.walk(dup))[idx]
-
-    class R2(ast.NodeTransformer):
-        def visit(self, node):
-            if node is target:
-                return copy.deepcopy(new)
-            return super().visit(node)
-
-    return R2().visit(dup)
 
 
 def check_block_writer(ctx, a, rule, codec, f):
